@@ -21,6 +21,7 @@ TAG_LOGS = b'\x11\x80\x00\x00\x00\x00\x00\x00'
 TAG_STRINGS = b'\x12\x80\x00\x00\x00\x00\x00\x00'
 TAG_KEXTS = b'\x05\x80\x00\x00\x00\x00\x00\x00'
 TAG_IMAGES = b'\x04\x80\x00\x00\x01\x00\x00\x00'
+V2_MAGIC_BYTES = b'\x00\x02\xaa\x55'
 ALL_TAGS = [STACKSHOT_END, TAG_THREADMAP, TAG_EVENTS, TAG_MORE, TAG_DYLD, TAG_CODES, TAG_PROCS, TAG_LOGS,
             TAG_STRINGS, TAG_KEXTS, TAG_IMAGES]
 MODP = 2305843009213693951
@@ -385,6 +386,9 @@ def gen_scan_gap(rng, tag, maxlen=40):
 
 
 def gen_rec(rng):
+    if rng.random() < 0.08:             # a record that begins with one of the format's own tags / magics: still a record
+        t = rng.choice(ALL_TAGS + [V2_MAGIC_BYTES, V3_MAGIC])
+        return (t + rng.randbytes(64))[:64]
     style = rng.randrange(3)
     if style == 0:
         return rng.randbytes(64)
